@@ -129,6 +129,8 @@ int simk_stat(const char *, struct stat *);
 void *simk_mmap(void *, size_t, int, int, int, off_t);
 int simk_munmap(void *, size_t);
 void *simk_realloc(void *, size_t);
+/* payload copies into / out of shared regions, word by word (only in access-instrumented objects) */
+void *simk_memcpy(void *, const void *, size_t);
 /* identity, signals, randomness */
 pid_t simk_getpid(void);
 int simk_kill(pid_t, int);
@@ -226,6 +228,10 @@ simk_sighandler_t simk_signal(int, simk_sighandler_t);
 #define random(...) simk_random(__VA_ARGS__)
 #define sigaction(...) simk_sigaction(__VA_ARGS__)
 #define signal(...) simk_signal(__VA_ARGS__)
+
+#ifdef SIMK_MEMCPY_YIELD
+#define memcpy(...) simk_memcpy(__VA_ARGS__)
+#endif
 
 #endif /* SIMK_NO_RENAME */
 #endif /* SIMK_RENAME_H */
